@@ -83,3 +83,12 @@ Proof. repeat split; reflexivity. Qed.
 Lemma tables_agree_named :
   gen_msg_table = expected_msg_table /\ gen_dir_fields = expected_dir_fields /\ gen_qid_fields = expected_qid_fields.
 Proof. repeat split; reflexivity. Qed.
+
+(* the doubled stat size is applied to Rstat and Twstat, passed by value or by pointer, in all of
+   encode, decode and size9p (a form missing from one of them makes size and bytes disagree) *)
+Definition expected_stat_arms : list (list string) :=
+  [["*MessageRstat"; "MessageRstat"]; ["*MessageTwstat"; "MessageTwstat"]].
+
+Lemma stat_arms_agree :
+  gen_enc_stat_arms = expected_stat_arms /\ gen_dec_stat_arms = expected_stat_arms /\ gen_size_stat_arms = expected_stat_arms.
+Proof. repeat split; reflexivity. Qed.
